@@ -25,6 +25,7 @@ func encodeFunc(w *World, cs *Contracts, mods *ModAnalysis, name string) *FuncRe
 		res.Errs = append(res.Errs, "contract drift: function "+name+" not found in the package")
 		return res
 	}
+	allocCounter = fc != nil && fc.AllocCounter
 	var pre []*Comp
 	var e *Enc
 	var prevDT []string
@@ -118,7 +119,11 @@ func (e *Enc) encodeTop(fn *ssa.Function, fc *FuncContract, name string) {
 	}
 	e.assume("(> " + e.get(st, e.clockComp()) + " 0)")
 	// convention: nil counts as allocated, so "reference is nil or allocated" is a unit fact
-	e.assume("(>= " + e.get(st, e.allocComp()) + " 0)")
+	if allocCounter {
+		e.assume("(>= " + e.get(st, e.allocComp()) + " 0)")
+	} else {
+		e.assume(sel(e.get(st, e.allocComp()), "nil"))
+	}
 	// no monitor lock is held on entry (unless the contract says "holds")
 	e.assume(eq(e.get(st, e.heldComp()), "((as const (Array Ref Bool)) false)"))
 	entry := st.clone()
